@@ -99,6 +99,8 @@ struct SimDisk
         int method = 0, role = 0, ordinal = 0;
         int code = 0;  // sqlite result code to return
         bool fired = false;
+        int persist = 0;        // see FaultSpec::persist
+        uint64_t refired = 0;   // how often a persistent fault failed further calls
     } fault;
     // hook consulted in addition (for buggify-style faults)
     std::function<int(int method, int role, const std::string& path)> hook;
